@@ -143,3 +143,28 @@ Example ex_build_index :
      with Ok t => Some t | _ => None end)
   = Some (Some ([0; 1], [1; 0])).
 Proof. vm_compute. reflexivity. Qed.
+
+(* the pipeline theorem: the shuffled collection [ex_tables] is a consistent input, and
+   sort + build_index + compute_mutation_parents succeed on it *)
+From TskVerif Require Import C07.IndexProofs C07.PipelineProofs.
+
+Example ex_consistent_input : consistent_input ex_tables.
+Proof.
+  constructor.
+  - intros e [<- | [<- | [<- | [<- | []]]]]; vm_compute; repeat split; congruence.
+  - intros a b [<- | [<- | [<- | [<- | []]]]] [<- | [<- | [<- | [<- | []]]]] Hc [O1 O2];
+      try reflexivity; vm_compute in Hc, O1, O2; try discriminate; exfalso; auto.
+  - intros s [<- | [<- | [<- | []]]]; simpl; lia.
+  - intros m [<- | [<- | [<- | [<- | []]]]]; vm_compute; split; congruence.
+Qed.
+
+Example ex_pipeline :
+  match table_sort Qmerge None ex_tables with
+  | Ok t1 => match build_index Qmerge t1 with
+             | Ok t2 => match compute_mutation_parents t2 with
+                        | Ok t3 => Some (map m_site (t_muts t3), map m_node (t_muts t3), map m_parent (t_muts t3))
+                        | _ => None end
+             | _ => None end
+  | _ => None end
+  = Some ([0; 1; 2; 2], [1; 2; 0; 0], [-1; -1; -1; 2]).
+Proof. vm_compute. reflexivity. Qed.
